@@ -44,6 +44,7 @@ ENGINE = {
 }
 # what the theorems of each engine property cover, and what is decided by the correspondence run + oracle only
 SCOPE = {
+ "C02": "Proved for every history and both build profiles: no timestamp (recomputed_at, changed_at, set_at) is ever later than the stabilisation number; recompute_one stamps its node with that number before anything else and nothing moves the stamp within the same stabilisation; hence a node that has been recomputed in a stabilisation is not stale from then until the propagation phase ends (an expert node only on an explicit make_stale / edge change), i.e. the staleness rule never asks for a second invocation. Not proved: that the heap releases nodes in an order in which every input already has its final value (height order under dynamic rewiring), and the invocation counts themselves — per-stabilisation invocation log compared with the crate + from-scratch oracle",
  "C03": "Proved for all states/fuel: once a bind's left-hand side changed, recomputing its lhs-change node leaves every node created by the previous run invalid (or freed); invalidity is permanent; an invalid node is never given to its function (recompute panics instead). Not proved: the scheduling half (no node of the old run is recomputed before the lhs-change node ran) — decided by the correspondence on the ordered recompute log plus the oracle",
  "C04": "Proved for every history of a debug build (any operations in any order, closures with any effects, injected panics, misuse): no operation ever panics inside the recompute heap — `node was not in recompute heap` and the two out-of-bounds queue reads are unreachable — via the heap's representation invariant (C11) and a judgment that tracks which panic tags a computation can raise from a consistent state, generated for every engine function. Not proved: the absence of every other panic on well-formed programs, and release builds — outcome class of every operation compared with the crate in both profiles + oracle",
  "C06": "Proved: the three built-in cutoffs, (old,new) argument order of function cutoffs, a suppressed result leaves changed_at alone and an unsuppressed one stamps it, staleness = some input stamped since the last run. Not proved: that every stale needed node is actually recomputed in the same stabilise (heap invariant) — correspondence + oracle",
